@@ -639,12 +639,57 @@ func checkTokenBucket(c *report.Ctx) {
 				ok, minFn = true, g
 			}
 		}
+		// or the minimum written out: the sum where it is below (or at) the capacity, the capacity where it is not
+		writtenOut := false
+		if !ok {
+			isSumV := func(v ssa.Value) bool {
+				bo, k := an.Strip(v, true).(*ssa.BinOp)
+				return k && bo.Op == token.ADD && (loadOf(bwP+".Bucket", "tokenCount")(bo.X) && loadOf(bwP+".Bucket", "refillNumber")(bo.Y) || loadOf(bwP+".Bucket", "tokenCount")(bo.Y) && loadOf(bwP+".Bucket", "refillNumber")(bo.X))
+			}
+			isCapV := loadOf(bwP+".Bucket", "capacity")
+			pf := an.NewFacts(f)
+			below := func(b *ssa.BasicBlock, want bool) bool { // sum < capacity (or <=) known true / known false
+				return pf.Holds(b, func(ft an.Fact) bool {
+					r, k := an.AsRel(ft)
+					if !k {
+						return false
+					}
+					for _, rr := range []an.Rel{r, r.Flip()} {
+						if isSumV(rr.X) && isCapV(rr.Y) {
+							switch rr.Op {
+							case token.LSS, token.LEQ:
+								return want
+							case token.GEQ, token.GTR:
+								return !want
+							}
+						}
+					}
+					return false
+				})
+			}
+			gotSum, gotCap, other := false, false, false
+			for _, st := range an.Stores(f, bwP+".Bucket", "tokenCount") {
+				switch {
+				case isSumV(st.Val) && below(st.Block(), true):
+					gotSum = true
+				case isCapV(st.Val) && below(st.Block(), false):
+					gotCap = true
+				default:
+					other = true
+				}
+			}
+			writtenOut = gotSum && gotCap && !other
+			ok = writtenOut
+		}
 		c.Check("R-GUARD", an.FuncName(f)+"/capped-refill", "a refill adds the refill number and never exceeds the capacity", ok, fpos(f), 1, "tokenCount = min(tokenCount+refillNumber, capacity): %v", ok)
 		what := "builtin min"
 		if minFn != nil {
 			what = an.FuncName(minFn)
 		}
-		c.Check("R-SHAPE", bwP+".min64/is-min", "the function that caps the refill returns the smaller argument", minFn != nil || builtinMin, fpos(f), 1, "%s", what)
+		if writtenOut {
+			what = "written out as a comparison"
+		}
+		c.Check("R-SHAPE", bwP+".min64/is-min", "the function that caps the refill returns the smaller argument", minFn != nil || builtinMin || writtenOut, fpos(f), 1, "%s", what)
 	}
 	if f := fn(c, bwP, "(*BandwidthLimitingWriter).Write"); f != nil {
 		facts := an.NewFacts(f)
